@@ -1,6 +1,6 @@
 //! C07 -- surface views are exact, non-aliasing windows onto their parent surface.
 //!
-//! Explicit-state BFS over *programs* = chains of `transpose` / `view(rows, cols)` (11 x 11
+//! Explicit-state BFS over *programs* = chains of `transpose` / `view(rows, cols)` (12 x 12
 //! selector pairs, DESIGN.md) applied to base surfaces of every size h, w in 0..=5 (quick) /
 //! 0..=8 (thorough) in two memory layouts (dense `SurfaceOwned`, and a padded/strided buffer
 //! wrapped with the public `SurfaceView::new` / `SurfaceMutView::new`). Every cell of a base
@@ -121,6 +121,10 @@ macro_rules! with_sel {
             }
             10 => {
                 let $x = ..=-9i32;
+                $body
+            }
+            11 => {
+                let $x = 1i32..=-1i32;
                 $body
             }
             _ => unreachable!(),
@@ -786,12 +790,13 @@ fn mut_battery(s: &mut dyn SurfaceMut<Item = E>, x: &Expect, bp: usize, out: &mu
 // the four ownership paths
 // ---------------------------------------------------------------------------------------
 
-pub const PATHS: [&str; 5] = [
+pub const PATHS: [&str; 6] = [
     "view(&S)",
     "view_mut",
     "view_owned(&mut S)",
     "view_owned(Box<dyn SurfaceMut>)",
     "method calls on the concrete owned-view types",
+    "the result held behind &S, &mut S, Arc<S> and Box<S> (the library's forwarding implementations)",
 ];
 
 /// longest chain the statically typed path is expanded for (2^n monomorphic copies of the battery call)
@@ -799,6 +804,51 @@ pub const CONCRETE_MAX: usize = 4;
 
 fn finish_concrete<S: SurfaceMut<Item = E>>(mut s: S, k: &mut dyn FnMut(&mut dyn SurfaceMut<Item = E>)) {
     k(&mut s)
+}
+
+/// what a wrapper hands to the battery
+enum Held<'a> {
+    Ref(&'static str, &'a dyn Surface<Item = E>),
+    Mut(&'static str, &'a mut dyn SurfaceMut<Item = E>),
+}
+
+/// The finished view behind each of the pointer types the library implements its traits for: the trait object
+/// the battery receives is the WRAPPER's implementation (`<Box<S> as Surface>::width` and so on).
+fn finish_wrapped<S: SurfaceMut<Item = E>>(mut s: S, k: &mut dyn FnMut(Held<'_>)) {
+    {
+        let w: &S = &s;
+        k(Held::Ref("&S", &w));
+    }
+    {
+        let mut w: &mut S = &mut s;
+        k(Held::Mut("&mut S", &mut w));
+    }
+    let mut boxed: Box<S> = Box::new(s);
+    k(Held::Mut("Box<S>", &mut boxed));
+    let shared: std::sync::Arc<S> = std::sync::Arc::new(*boxed);
+    k(Held::Ref("Arc<S>", &shared));
+}
+
+macro_rules! wrapped_chain {
+    ($s:expr, $ops:expr, $k:expr;) => {{
+        let s = $s;
+        assert!($ops.is_empty());
+        finish_wrapped(s, $k)
+    }};
+    ($s:expr, $ops:expr, $k:expr; $lvl:tt $($rest:tt)*) => {{
+        let s = $s;
+        match $ops.split_first() {
+            None => finish_wrapped(s, $k),
+            Some((Op::T, rest)) => {
+                let v = s.transpose();
+                wrapped_chain!(v, rest, $k; $($rest)*)
+            }
+            Some((Op::V(r, c), rest)) => {
+                let v = with_sel!(*r, rs, with_sel!(*c, cs, s.view_owned(rs, cs)));
+                wrapped_chain!(v, rest, $k; $($rest)*)
+            }
+        }
+    }};
 }
 
 /// The chain written the way a caller writes it: `s.transpose().view_owned(a, b).transpose()` on values of
@@ -960,6 +1010,43 @@ fn run_path(base: &Base, ops: &[Op], path: usize, x: &Expect, battery: bool, out
                     }
                 }; a b c d);
             }
+            (5, layout) => {
+                let mut held = |h: Held<'_>, bp: usize, out: &mut Out| {
+                    let before = out.findings.len();
+                    let name = match h {
+                        Held::Ref(name, s) => {
+                            shape = Some(s.shape());
+                            if battery {
+                                read_battery(s, x, bp, out);
+                            }
+                            name
+                        }
+                        Held::Mut(name, s) => {
+                            shape = Some(s.shape());
+                            if battery {
+                                restore(s, x);
+                                mut_battery(s, x, bp, out);
+                                restore(s, x);
+                            }
+                            name
+                        }
+                    };
+                    for f in &mut out.findings[before..] {
+                        f.kind = format!("{}:behind {}", f.kind, name);
+                    }
+                };
+                match layout {
+                    Layout::Dense => {
+                        let root = dense_root(base);
+                        let bp = root.data().as_ptr() as usize;
+                        wrapped_chain!(root, ops, &mut |h: Held<'_>| held(h, bp, out); a b c d);
+                    }
+                    Layout::Strided => {
+                        let root = SurfaceMutView::new(base.strided_shape(), &mut buf[..]);
+                        wrapped_chain!(root, ops, &mut |h: Held<'_>| held(h, bp_strided, out); a b c d);
+                    }
+                }
+            }
             _ => unreachable!(),
         }
     });
@@ -1022,7 +1109,7 @@ pub fn check_program_opt(base: &Base, ops: &[Op], battery: bool) -> ProgramResul
     let mut checks = 0;
     let mut shapes: Vec<Option<Shape>> = vec![];
     for path in 0..PATHS.len() {
-        if path == 4 && ops.len() > CONCRETE_MAX {
+        if path >= 4 && ops.len() > CONCRETE_MAX {
             continue;
         }
         let mut out = Out::default();
@@ -1170,7 +1257,7 @@ pub fn run(ctx: &Ctx) -> Result<Report, String> {
         .set("raw_violations", viol.raw_count())
         .set(
             "state_space",
-            "state = (base size, layout, resulting Shape); ops = transpose + view(r, c) for the 11x11 selector pairs; \
+            "state = (base size, layout, resulting Shape); ops = transpose + view(r, c) for the 12x12 selector pairs; \
              every transition re-executes the whole program on a fresh base through the four ownership paths and runs the \
              full access battery (get/get_mut incl. ring and usize::MAX probes, iter, with_position, nth, iter_mut with \
              live references and addresses, nth on iter_mut, set, fill, fill_with, clear, insert at every offset, map, \
